@@ -212,6 +212,162 @@ def interleaving_stage(ctx, max_runs=None):
     ctx.extra["interleavings_explored"] = n
 
 
+# ---------------------------------------------------------------------------
+# hunt3 C09/1: an un-evaluable @skip / @include in a LATER list item's sub-selection (request text only)
+
+def unevaluable_directive_stage(ctx):
+    """
+    `mutation($v: Boolean = false) { m1 { ... on A { a } ... on B { b @skip(if: $v) } } m2 }` with {"v": null}: a VALID request,
+    plain resolvers. Collecting the fields of a later list item raises (the directive cannot be evaluated) after an earlier
+    item's sub-resolver was started: m1 fails at once, the serial chain invokes m2 while that sub-resolver is in flight
+    (same mechanism as known finding E2, reached from the request alone). Shapes: union / interface items, @skip / @include,
+    failing item second of two / third of three. Controlled thread pool and asyncio; oracle = the C09 trace predicate and
+    data / errors equal to BlockingExecutor's.
+    """
+    import asyncio
+    from concurrent.futures import Future
+    from py_gql import build_schema, process_graphql_query
+    from py_gql.execution import BlockingExecutor, Executor
+    from py_gql.execution.runtime import AsyncIORuntime, BlockingRuntime, ThreadPoolRuntime
+    sdls = {
+        "union": "union U = A | B type A { a: Int } type B { b: Int } type Query { x: Int } type Mutation { m1: [U] m2: Int }",
+        "interface": "interface U { id: Int } type A implements U { id: Int a: Int } type B implements U { id: Int b: Int } "
+                     "type Query { x: Int } type Mutation { m1: [U] m2: Int }",
+    }
+    n = 0
+    for abstract, sdl in sdls.items():
+        for directive, default in (("skip", "false"), ("include", "true")):
+            for items in (("A", "B"), ("A", "A", "B")):
+                doc = ("mutation ($v: Boolean = %s) { m1 { ... on A { a } ... on B { b @%s(if: $v) } } m2 }" % (default, directive))
+                label = "%s+@%s+item%d" % (abstract, directive, len(items))
+
+                def make(trace, asynchronous):
+                    schema = build_schema(sdl)
+
+                    def rec(kind, info):
+                        trace.append([kind, list(info.path)])
+
+                    def m1(root, c, info):
+                        rec("body", info)
+                        rec("done", info)
+                        return [{"__typename__": t, "id": i} for i, t in enumerate(items)]
+
+                    def leaf(root, c, info):
+                        rec("body", info)
+                        rec("done", info)
+                        return 1
+                    if asynchronous:
+                        gates = []
+
+                        def wrap(fn):
+                            async def r(root, c, info):
+                                trace.append(["call", list(info.path)])
+                                g = asyncio.get_event_loop().create_future()
+                                gates.append(g)
+                                await g
+                                return fn(root, c, info)
+                            return r
+                        m1r, ar, br, m2r = wrap(m1), wrap(leaf), wrap(leaf), wrap(leaf)
+                        schema._gates = gates
+                    else:
+                        m1r = ar = br = m2r = None
+                    schema.register_resolver("Mutation", "m1", m1r or m1)
+                    schema.register_resolver("Mutation", "m2", m2r or leaf)
+                    schema.register_resolver("A", "a", ar or leaf)
+                    schema.register_resolver("B", "b", br or leaf)
+                    return schema
+
+                def canon(res):
+                    return [base.dumps(res.data), sorted(base.dumps(list(e.path) if e.path else None) for e in res.errors)]
+
+                # reference
+                tr0 = []
+                try:
+                    ref = canon(process_graphql_query(make(tr0, False), doc, variables={"v": None}, runtime=BlockingRuntime(),
+                                                      executor_cls=BlockingExecutor))
+                except Exception as err:  # noqa
+                    ref = ["raises", type(err).__name__]
+
+                def pool():
+                    trace = []
+
+                    class _W:
+                        table = {}
+
+                        def ev(self, kind, path):
+                            trace.append([kind, list(path)])
+                    w = _W()
+                    w.queue = []
+                    w.trace = trace
+                    rt = ThreadPoolRuntime(max_workers=1)
+                    rt._inner.shutdown(wait=False)
+                    rt._inner = W.ManualExecutor(w)
+                    fut = process_graphql_query(make(trace, False), doc, variables={"v": None}, runtime=rt, executor_cls=Executor)
+                    steps = 0
+                    while w.queue and steps < 50:
+                        e = w.queue.pop(0)
+                        steps += 1
+                        try:
+                            r = e.fn(*e.args, **e.kwargs)
+                        except BaseException as err:  # noqa
+                            e.fut.set_exception(err)
+                        else:
+                            e.fut.set_result(r)
+                    return fut.result(timeout=0) if isinstance(fut, Future) else fut, trace
+
+                def aio():
+                    trace = []
+                    schema = make(trace, True)
+                    loop = W.private_loop()
+
+                    async def main():
+                        rt = AsyncIORuntime(execute_blocking_functions_in_thread=False)
+                        task = asyncio.ensure_future(process_graphql_query(schema, doc, variables={"v": None}, runtime=rt, executor_cls=Executor))
+                        for _ in range(60):
+                            for _ in range(8):
+                                await asyncio.sleep(0)
+                            if task.done():
+                                break
+                            pending = [g for g in schema._gates if not g.done()]
+                            if pending:
+                                pending[0].set_result(None)
+                        res = await asyncio.wait_for(task, 10)
+                        for g in schema._gates:              # late sub-resolvers: let them finish and record
+                            if not g.done():
+                                g.set_result(None)
+                        for _ in range(8):
+                            await asyncio.sleep(0)
+                        return res
+                    return loop.run_until_complete(main()), trace
+
+                pseudo = {"kind": "mutation", "fields": [{"key": "m1"}, {"key": "m2"}]}
+                for cfg, fn in (("threadpool", pool), ("asyncio", aio)):
+                    ctx.count()
+                    n += 1
+                    detail = {"stream": "unevaluable-directive", "config": cfg, "shape": label, "sdl": sdl, "document": doc,
+                              "variables": {"v": None}}
+                    try:
+                        res, trace = fn()
+                        got = canon(res)
+                    except Exception as err:  # noqa
+                        got, trace = ["raises", type(err).__name__], []
+                    bad = W.serial_violation(pseudo, {"trace": trace})
+                    if bad:
+                        ctx.fail("c09:serial-overlap:abandoned-list-item:unevaluable-directive",
+                                 "%s, %s: %s (valid request, plain resolvers; variables {v: null})" % (cfg, label, bad),
+                                 dict(detail, trace=trace))
+                    elif sorted(base.dumps(p_) for k_, p_ in trace if k_ == "done") != sorted(base.dumps(p_) for k_, p_ in tr0 if k_ == "done"):
+                        ran = sorted(base.dumps(p_) for k_, p_ in trace if k_ == "done")
+                        ctx.fail("c09:serial-overlap:abandoned-list-item:unevaluable-directive:sub-resolver-never-ran",
+                                 "%s, %s: the resolvers that ran are %s, under BlockingExecutor %s - the sub-resolver of the earlier list item "
+                                 "was created and then abandoned (never awaited)" % (cfg, label, ran, sorted(base.dumps(p_) for k_, p_ in tr0 if k_ == "done")),
+                                 dict(detail, trace=trace))
+                    elif got != ref:
+                        ctx.fail("c09:unevaluable-directive:%s:result-differs" % cfg,
+                                 "%s, %s: %s instead of BlockingExecutor's %s" % (cfg, label, got, ref), dict(detail, got=got, blocking=ref))
+    ctx.extra["unevaluable_directive_runs"] = n
+
+
 def run(ctx):
     import time
     W.quiet()
@@ -257,6 +413,7 @@ def run(ctx):
         base.probe_many_root_fields(ctx, "C09", kinds=("mutation",))
         base.abandoned_stage(ctx, "C09")
         interleaving_stage(ctx)
+        unevaluable_directive_stage(ctx)
         base.real_pool_stage(ctx, "C09", extra_oracle=c09_oracle, n_random=4 if ctx.tier == "quick" else 30, kinds=("mutation",))
     finally:
         W.close_private_loop()
@@ -269,6 +426,13 @@ def replay(ctx, data):
     if data.get("input", {}).get("probe") == "many-root-fields":
         before = len(ctx.found)
         base.probe_many_root_fields(ctx, "C09", kinds=("mutation",))
+        return len(ctx.found) == before
+    if data.get("input", {}).get("stream") == "unevaluable-directive":
+        before = len(ctx.found)
+        try:
+            unevaluable_directive_stage(ctx)
+        finally:
+            W.close_private_loop()
         return len(ctx.found) == before
     if data.get("input", {}).get("stream") == "interleaving":
         before = len(ctx.found)
